@@ -164,25 +164,38 @@ CorrectlyRoundedFinite(neg, N, D, e, p, mode, r) ==
                /\ mPred <= 0 /\ mSucc >= 0
                /\ (mSucc = 0 => IsEven(c))                          \* tie with the upper neighbour: v must be the even one
                /\ (mPred = 0 => IsEven(c) \/ low)                   \* tie with the lower one (a power of ten is 10^p there: even)
-     /\ r.acc = (IF cV < 0 THEN Below ELSE IF cV > 0 THEN Above ELSE Exact) * (IF neg THEN -1 ELSE 1)
 
-(* full statement of C01/C02 for one rounding, including the range clauses *)
-CorrectlyRounded(neg, N, D, e, p, mode, r) ==
+(* C02 for a finite stored magnitude: accuracy = sign(stored - exact) *)
+AccTruthfulFinite(neg, N, D, e, p, r) ==
+  LET cV == CmpScaled(CoefP(r, p), UnitExp(r, p), N, D, e)
+  IN r.acc = (IF cV < 0 THEN Below ELSE IF cV > 0 THEN Above ELSE Exact) * (IF neg THEN -1 ELSE 1)
+
+(* statement of C01 for one rounding, including the range clauses (value, sign, form only) *)
+CorrectValue(neg, N, D, e, p, mode, r) ==
   LET t == MagOf(N, D)
       E0 == IAddInt(e, t)
   IN /\ r.neg = neg
      /\ IF ILt(E0, MinExp)                               \* |x| < 10^(MinExp-1): a zero of that sign
-        THEN r.form = "zero" /\ r.acc = (IF neg THEN Above ELSE Below)
+        THEN r.form = "zero"
         ELSE IF r.form = "inf"                           \* allowed iff the rounded magnitude reaches 10^MaxExp
-        THEN /\ r.acc = (IF neg THEN Below ELSE Above)
-             /\ \/ IGt(E0, MaxExp)
-                \/ /\ E0 = MaxExp                        \* x rounds up to 10^MaxExp = 0.1 * 10^(MaxExp+1)
-                   /\ LET rr == Res("finite", neg, One, IAddInt(MaxExp, 1), r.acc)
-                      IN CorrectlyRoundedFinite(neg, N, D, e, p, mode, rr)
+        THEN \/ IGt(E0, MaxExp)
+             \/ /\ E0 = MaxExp                           \* x rounds up to 10^MaxExp = 0.1 * 10^(MaxExp+1)
+                /\ LET rr == Res("finite", neg, One, IAddInt(MaxExp, 1), Exact)
+                   IN CorrectlyRoundedFinite(neg, N, D, e, p, mode, rr)
         ELSE /\ r.form = "finite"
              /\ ILe(MinExp, r.exp) /\ ILe(r.exp, MaxExp)
              /\ r.exp \in {E0, IAddInt(E0, 1)}           \* (implied by the next line; keeps its shifts small)
              /\ CorrectlyRoundedFinite(neg, N, D, e, p, mode, r)
+
+(* statement of C02 for one rounding: Acc = sign(stored - exact), overflow/underflow relative to the exact value *)
+AccTruthful(neg, N, D, e, p, r) ==
+  CASE r.form = "zero" -> r.acc = (IF neg THEN Above ELSE Below)        \* exact value is non-zero
+    [] r.form = "inf"  -> r.acc = (IF neg THEN Below ELSE Above)
+    [] OTHER -> LET E0 == IAddInt(e, MagOf(N, D))
+                IN r.exp \in {E0, IAddInt(E0, 1), IAddInt(E0, -1)} => AccTruthfulFinite(neg, N, D, e, p, r)
+
+CorrectlyRounded(neg, N, D, e, p, mode, r) ==
+  CorrectValue(neg, N, D, e, p, mode, r) /\ AccTruthful(neg, N, D, e, p, r)
 
 (***************************************************************************)
 (* Order on values (property C16): sign of x - y on the extended reals.    *)
